@@ -577,6 +577,6 @@ func TestVerif_C42_NBS(t *testing.T) {
 		"git clients run with the read-side fetch dedup window disabled (SyncForReadTTL=1ns); within the production window of 1 s a handle may serve a stale manifest by design",
 		"chunks that became durable after a client's last refresh are not required to be visible or invisible to it")
 	defer rec.Write(t)
-	vh.Check(t, "nbs", 260, 420, func(rt *rapid.T) { c42nCase(rt, rec, false) })
-	vh.Check(t, "nbs_git", 3, 6, func(rt *rapid.T) { c42nCase(rt, rec, true) })
+	vh.Check(t, "nbs", 400, 800, func(rt *rapid.T) { c42nCase(rt, rec, false) })
+	vh.Check(t, "nbs_git", 3, 3, func(rt *rapid.T) { c42nCase(rt, rec, true) })
 }
